@@ -217,7 +217,8 @@ def run_case(A):
 
 KINDS = ("generic", "generic", "hessenberg", "upper", "lower", "hermitian", "skew_hermitian", "zero_col",
          "zero_subcol", "zero_subdiag", "block_tri", "low_rank", "near_hessenberg", "signed_perm",
-         "similar_to_hessenberg", "graded_cols", "graded_rows", "nearly_hermitian", "nearly_structured", "block_diag")
+         "similar_to_hessenberg", "graded_cols", "graded_rows", "nearly_hermitian", "nearly_structured", "block_diag",
+         "one_signed_lower", "laplacian", "trailing_rows_reduced")
 BASE_PATTERNS = ("generic", "generic", "int", "pure_imag", "axis", "sparse")
 
 
@@ -287,6 +288,24 @@ def reduction_cases(draw, tier):
             A[c:, lo:c] = 0.0
             A[lo:c, c:] = 0.0
             lo = c
+    elif kind == "one_signed_lower":
+        # every component of every entry below the first sub-diagonal has the same sign (a test that forgets the
+        # modulus sees "nothing to reduce")
+        sg = draw(st.sampled_from([-1.0, 1.0]))
+        idx = _below(n, 1)
+        A[idx] = sg * np.abs(A[idx])
+    elif kind == "laplacian":
+        A = np.zeros((n, n, 4))
+        A[..., 0] = -1.0
+        for i in range(n):
+            A[i, i] = [float(n), 0, 0, 0]
+        if draw(st.booleans()):
+            A = ref.qmul(A, draw(gen.unit_q(exact=True)).reshape(1, 1, 4))
+    elif kind == "trailing_rows_reduced":
+        # the last rows are exactly zero left of the diagonal (reducible at the bottom), the rest is dense
+        t = draw(st.integers(1, max(1, n - 2)))
+        for i in range(n - t, n):
+            A[i, :i] = 0.0
     elif kind == "signed_perm":
         A = draw(gen.exact_unitary(n))
         if draw(st.booleans()):
